@@ -129,6 +129,12 @@ fn msg_kind(m: &Msg) -> i64 {
 // ---------------------------------------------------------------------------------------------
 // harness engine (copied from replica.rs; blocks are persisted as soon as they are queued)
 
+/// The durable state as the storage layer keeps it (encode, then decode).
+fn through_codec(state: &validator::ReplicaState) -> ctx::Result<validator::ReplicaState> {
+    zksync_protobuf::decode::<validator::ReplicaState>(&zksync_protobuf::encode(state))
+        .map_err(|e| anyhow::format_err!("durable replica state does not decode: {e:#}").into())
+}
+
 struct EngineInner {
     rank: usize,
     genesis: validator::Genesis,
@@ -219,7 +225,7 @@ impl EngineInterface for Engine {
         if let Some((k, applied)) = *crash {
             if k == 0 {
                 if applied {
-                    *self.0.state.lock().unwrap() = state.clone();
+                    *self.0.state.lock().unwrap() = through_codec(state)?;
                 }
                 *crash = None;
                 *self.0.crashed.lock().unwrap() = true;
@@ -227,7 +233,7 @@ impl EngineInterface for Engine {
             }
             *crash = Some((k - 1, applied));
         }
-        *self.0.state.lock().unwrap() = state.clone();
+        *self.0.state.lock().unwrap() = through_codec(state)?;
         Ok(())
     }
     async fn push_tx(&self, _ctx: &ctx::Ctx, _tx: Transaction) -> ctx::Result<bool> {
